@@ -37,6 +37,10 @@ pub assume_specification<T: PartialEq, A: core::alloc::Allocator>[ Vec::<T, A>::
 pub assume_specification<T: Copy>[ Option::<&T>::copied ](o: Option<&T>) -> (r: Option<T>)
     ensures r == (match o { Some(x) => Some(*x), None => None });
 
+pub assume_specification<T: Default>[ core::mem::take::<T> ](dest: &mut T) -> (r: T)
+    ensures r == *old(dest);
+pub assume_specification<T>[ core::mem::replace::<T> ](dest: &mut T, src: T) -> (r: T)
+    ensures r == *old(dest), *final(dest) == src;
 pub assume_specification[ isize::unsigned_abs ](x: isize) -> (r: usize)
     ensures r as int == (if x >= 0 { x as int } else { -(x as int) });
 
